@@ -486,3 +486,34 @@ func (p AuthPipe) GetSSHArgs() *transport.SSHArgs {
 
 	return p.SSHArgs
 }
+
+// Produced reports how many bytes the device has emitted so far (delivered or still pending).
+func (p *Pipe) Produced() int {
+	p.mu.Lock()
+	defer p.mu.Unlock()
+
+	return p.delivered + len(p.pending)
+}
+
+// LastReadAt returns the (virtual) time since open of the last successful read, and whether any
+// read happened.
+func (p *Pipe) LastReadAt() (time.Duration, bool) {
+	p.mu.Lock()
+	defer p.mu.Unlock()
+
+	for i := len(p.Log) - 1; i >= 0; i-- {
+		if p.Log[i].Kind == "r" {
+			return p.Log[i].At, true
+		}
+	}
+
+	return 0, false
+}
+
+// Since returns the time since the pipe was opened.
+func (p *Pipe) Since() time.Duration {
+	p.mu.Lock()
+	defer p.mu.Unlock()
+
+	return p.now()
+}
